@@ -33,10 +33,18 @@ ASSUMPTIONS = [
     'random-order kaczmarz, projections, accelerated pdhg (changing steps), l-terms of the primal-dual splittings, '
     'newton/bfgs/nonlinear-cg are outside the model']
 TRUSTED = [
+    'translate/solvers_c12.py (Python ast -> Gallina, symbolic execution with object identity, fail-closed): its statement '
+    'grammar and the mappings v.norm()**2 -> <v,v>, a.inner(b) -> <a,b>, x.lincomb(a,u,b,v) -> a*u+b*v, x /= s -> (1/s)*x, '
+    'E + sum(Li.adjoint(vi) ...) and the L[0].adjoint(..)/for .. += idiom -> left fold over the blocks; the tests it is '
+    'configured to drop (argument validation, callback, isfinite/isnan) or to resolve (use_normal, l is not None, len(L) > 0, '
+    'np.isclose never true); for BacktrackingLineSearch and the final-iteration / empty-L branches of douglas_rachford_pd '
+    'the control skeleton is pinned text, only the formulas are regenerated',
+    'translate/solvers.py + C11/Interp.v + C11/GenProofs.v (property C11) for landweber, kaczmarz, pdhg, admm_linearized, '
+    '(accelerated_)proximal_gradient, steepest_descent: C12/Bridge.v proves the C12 list steps equal to C11\'s models',
     'harness/c12.py: measuring an operator by its matrix on unit vectors, recording callback copies',
     'C12/Model.v list instance (mvec/wdot) and the separable proximal formulas fprox/fcprox (validated by the correspondence)',
-    'power method: the identity  x_norm_k^2 = |B^(k+1) x0|^2 / |B^k x0|^2  between the normalised loop of the code '
-    'and the un-normalised executable model is proved in Coq (pm_normalised_ratio) for the abstract model']
+    'the abstract-space theorems apply to the list steps through the generic definitions (same Gallina term instantiated); '
+    'the transport is PROVED for Landweber and CG (C12/Inst.v, C12/Dim.v), not for the other solvers']
 
 
 # ------------------------------------------------------------------ helpers
@@ -1359,14 +1367,18 @@ def probes(rng, tier):
     return out
 
 
-LEVEL_TEXT = ('Proof (partial: CG n-step termination and convergence of the non-smooth solvers are validated, not proved). '
+LEVEL_TEXT = ('Proof (partial: convergence of the non-smooth solvers is validated, not proved). Tie to the source: the loop bodies '
+              'of conjugate_gradient, conjugate_gradient_normal, power_method_opnorm, forward_backward_pd, douglas_rachford_pd and the '
+              'formulas of BacktrackingLineSearch are REGENERATED from /repo on every run (translate/solvers_c12.py) and proved equal to '
+              'the models; landweber, kaczmarz, pdhg, admm_linearized, (accelerated_)proximal_gradient go through the programs C11 '
+              'regenerates (C12/Bridge.v); an edit of a loop body breaks a proof, unknown syntax fails closed. '
               'The loop bodies of landweber, kaczmarz, conjugate_gradient, conjugate_gradient_normal, power_method_opnorm, '
               'pdhg, douglas_rachford_pd, forward_backward_pd, (accelerated_)proximal_gradient, admm_linearized, '
               'BacktrackingLineSearch and steepest_descent are modelled once, generically, in Coq; the same terms are executed '
               'at Q against the implementation (every branch of the loops, 258/1065 cases) and proved at R over ALL '
               'inner-product spaces, operators, starts and iteration budgets: Landweber/CGN residual and Kaczmarz distance '
               'never increase in the admissible step windows, the CG energy error decreases by |r|^4/<p,Ap> per step, '
-              'every power-method estimate is <= the norm, backtracking/steepest descent strictly decrease any objective, '
+              'CG is exact after dimension-many steps, every power-method estimate is <= the norm, backtracking/steepest descent strictly decrease any objective, '
               'proximal gradient decreases f+g for gamma <= 2/L, and for all six non-smooth solvers a point satisfying the '
               'sub-gradient optimality conditions is a fixed point (PDHG and proximal gradient: if and only if). The theorems '
               'are transported to the list model itself (R^n, weighted dot products, matrices; plain transpose proved adjoint). '
